@@ -75,7 +75,7 @@ CheckS == LET i == Ev.i
               mustnot == Ev.dE > 0 /\ ~(Ev.tpos /\ Ev.below)
           IN IF Ev.t # t \/ Ev.j # j THEN "Position"
              ELSE IF t >= Len(Tr.tpos) THEN "SweepCount"
-             ELSE IF Ev.tpos # Tr.tpos[t + 1] THEN "Temperature"
+             ELSE IF Ev.tpos # Tr.tpos[t + 1] \/ ~Ev.t_ok THEN "Temperature"
              ELSE IF i \notin Spins THEN "IndexRange"
              ELSE IF Tr.inorder /\ i # j THEN "InOrder"
              ELSE IF Ev.dE # DeltaE(minus, i) THEN "DeltaExact"
@@ -122,5 +122,7 @@ ZeroTempNeverWorse == (Done /\ AllZero /\ Len(Tr.init) > 0) =>
                          \A a \in 1..Len(Tr.api) : Tr.api[a].val <= EvalS(Model, MinusOf(Tr.init)) + Offset(UserP)
 NoRaise == Tr.raised = "" \/ (PrintT(<<"QVVIOL", "NoRaise", tid, 0>>) /\ FALSE)
 Representable == Tr.badnum = "" \/ (PrintT(<<"QVVIOL", "Representable", tid, 0>>) /\ FALSE)
-WholeCall == (AllAnnealsTraced /\ Reproducible /\ ZeroTempNeverWorse) \/ (PrintT(<<"QVVIOL", "WholeCall", tid, l - 1>>) /\ FALSE)
+\* with an empty schedule every result is the caller's initial state
+ZeroSweeps == Tr.zero_sweep_same
+WholeCall == (AllAnnealsTraced /\ Reproducible /\ ZeroTempNeverWorse /\ ZeroSweeps) \/ (PrintT(<<"QVVIOL", "WholeCall", tid, l - 1>>) /\ FALSE)
 =============================================================================
